@@ -245,18 +245,22 @@ luaL_setfuncs({LUA_state_var}, {LUA_class_reg}, 0);
             nargs = 0
             in_args = []
             out_args = []
+            # Each overload has its own kind of result.
+            subprogram = CXX_subprogram
+            if not is_dtor:
+                subprogram = function.ast.get_subprogram()
             for arg in function.ast.params:
                 arg_typemap = arg.typemap
                 if arg.init is not None:
                     all_calls.append(
                         LuaFunction(
-                            function, CXX_subprogram, in_args[:], out_args
+                            function, subprogram, in_args[:], out_args
                         )
                     )
                 in_args.append(arg)
             # no defaults, use all arguments
             all_calls.append(
-                LuaFunction(function, CXX_subprogram, in_args[:], out_args)
+                LuaFunction(function, subprogram, in_args[:], out_args)
             )
             maxargs = max(maxargs, len(in_args))
 
